@@ -373,7 +373,7 @@ def run(chk):
 META = {
     "category": "other",
     "engine": "TNA",
-    "technique": "symbolic interpretation of contraction kernels to tensor-network signatures (union-find over operand legs) compared with a canonical network; sibling agreement",
+    "technique": "symbolic interpretation of contraction kernels to tensor-network signatures (union-find over operand legs) compared with a canonical network, mask indexing evaluated; abstract interpretation of the sweep driver, of the shift-and-invert operator algebra and of the local solvers with the library solvers as recorders",
     "text": "Decides that all effective-Hamiltonian forms used by the chain DMRG code (4 dense, 7 matrix-vector, 4 diagonal specs, every "
             "configuration) are the same canonical network, i.e. the direct and iterative solvers see one operator, for all inputs and not "
             "only real-symmetric ones; for the tree optimiser, that the sweep (abstractly run on symbolic trees) reads only fresh environments, solves at the "
@@ -381,7 +381,7 @@ META = {
             ' optimize_mps is run abstractly over the gauge flags of its input: the state is orthonormalised before environments are built and the environment side matches the gauge.',
     "note": "Roles are bound by the kernels' parameter positions; letters and variable names are irrelevant. A kernel configuration the "
             "interpreter cannot follow stops the analysis (exit 2).",
-    "design_ref": "DESIGN.md 3.2, 4 (C08)",
+    "design_ref": "DESIGN.md 3.2, 4 (C08); as built: 9.1, 9.3, 9.8",
 }
 
 
